@@ -308,6 +308,20 @@ pub(crate) async fn settle(mut done: impl FnMut() -> bool, what: &str) {
     }
 }
 
+/// Like `settle`, but the absence of the event is an observation (returned), not a machinery error.
+pub(crate) async fn settled(mut done: impl FnMut() -> bool) -> bool {
+    let t0 = std::time::Instant::now();
+    loop {
+        if done() {
+            return true;
+        }
+        if t0.elapsed() > WAIT {
+            return false;
+        }
+        tokio::time::sleep(Duration::from_micros(200)).await;
+    }
+}
+
 /// Add a passive static neighbour with the given hold time (helper for harness parts
 /// outside the event module, which cannot call the private Global::add_peer).
 pub(crate) async fn add_simple_peer(d: &Daemon, addr: IpAddr, holdtime: u64, expected_as: u32) -> Result<(), String> {
